@@ -49,6 +49,34 @@ class Field:
         return cR, cZ, cT
 
 
+class CircField(Field):
+    """the same for the analytic circular equilibrium, from ITS definition only: psi'(r) = B0 r / (sqrt(1 - r^2/R0^2) q(r)), q(r) = sum a_k r^(2k),
+    Bt = B0 R0 / R (none of the implementation's derivative helpers is used)"""
+
+    def __init__(self, uo):
+        import ast
+        qc = uo["q_coefficients"]
+        qc = ast.literal_eval(qc) if isinstance(qc, str) else qc
+        self.R0, self.B0, self.qc = float(uo["R0"]), float(uo["B0"]), [float(x) for x in qc]
+        self.const = False
+
+    def _dpsidr(self, r):
+        q = sum(c * r ** (2 * k) for k, c in enumerate(self.qc))
+        return self.B0 * r / (np.sqrt(1.0 - r**2 / self.R0**2) * q)
+
+    def spl(self, R, Z, dx=0, dy=0, grid=False):
+        r = np.hypot(R - self.R0, Z)
+        if (dx, dy) == (1, 0):
+            return self._dpsidr(r) * (R - self.R0) / r
+        if (dx, dy) == (0, 1):
+            return self._dpsidr(r) * Z / r
+        raise NotImplementedError
+
+    def B(self, R, Z):
+        pR, pZ = self.spl(R, Z, dx=1), self.spl(R, Z, dy=1)
+        return pZ / R, -pR / R, self.B0 * self.R0 / R
+
+
 def run(chk):
     tr18 = c18.translate(chk)
     chk.trust("translate/fields.py (closures of calc_curvature and the helper chain)",
@@ -59,18 +87,21 @@ def run(chk):
     # the ingredients: the theorems take the helper chain (second derivatives of psi, dB*/d*, fpolprime) as the derivatives of their primitives --
     # that contract is monitored here too (both interpolation methods, dR != dZ), so that a wrong ingredient is reported with a concrete input
     c18.field_oracle(c18.Prefixed(chk, "ingredient:"), tr18)
-    grids = {g.name: g for g in corpus.get(tier=chk.tier) if g.ok}
+    # a circular equilibrium whose safety factor varies with radius (q = 1.5 + 2 r^2): the second derivatives of psi involve dq/dr
+    extra = [dict(name="circ_q2", kind="circular", options=dict(number_of_processors=1, nx_core=4, ny_total=8, q_coefficients=[1.5, 2.0]), must_build=True)]
+    grids = {g.name: g for g in corpus.get(tier=chk.tier, extra_cfgs=extra) if g.ok}
     n = 0
     worst = {}
     for name, g in grids.items():
-        if g.cfg["kind"] != "tokamak" or g.d["mesh"]["user_options"].get("psi_interpolation_method", "spline") != "spline":
+        circular = g.cfg["kind"] == "circular"
+        if not circular and (g.cfg["kind"] != "tokamak" or g.d["mesh"]["user_options"].get("psi_interpolation_method", "spline") != "spline"):
             continue
         ctype = g.d["mesh"]["user_options"].get("curvature_type")
         if ctype != "curl(b/B)":
             continue
         orth = bool(g.d["mesh"]["user_options"].get("orthogonal", True))
         from props import c03
-        F = Field(g.d["inputs"], c03.effective_inputs(g))
+        F = CircField(g.d["eq"]["user_options"]) if circular else Field(g.d["inputs"], c03.effective_inputs(g))
         w = dict(x=0.0, y=0.0, z=0.0, bxcv=0.0)
         for rid, r in g.d["regions"].items():
             A = r["arrays"]
@@ -118,7 +149,7 @@ def run(chk):
                     ok[:, 0] = ok[:, -1] = False
                 # extrapolate_profiles puts a kink into fpol(psi) at the last input point: the profile spline's third derivative jumps strongly at the knots
                 # around it and the Richardson differences of the oracle lose accuracy there
-                base_tol = 2e-3 if g.d["eq"]["user_options"].get("extrapolate_profiles") else 1e-4
+                base_tol = 2e-3 if (not circular and g.d["eq"]["user_options"].get("extrapolate_profiles")) else 1e-4
                 for comp, ref, tol in (("x", cx, base_tol), ("y", cy, max(tol_y, base_tol)), ("z", cz, max(tol_y, base_tol))):
                     got = A[f"curl_bOverB_{comp}"][loc]
                     sc = np.max(np.abs(ref[ok])) if ok.any() else 1.0
